@@ -10,7 +10,7 @@ import (
 
 func init() {
 	register(&propCheck{id: "C01", needRoot: true, run: checkC01,
-		explanation: "Decided statically: (1) DOM — in the write path (Set → set) the failing edge of the `value == nil` test leaves with a non-nil error and its passing edge dominates every effect on the working state (store of the working root, overlay update, recursive insert); (2) OWN/FLOW — the configuration values FlushThreshold, Sync, the flusher's threshold and the cache capacity are READ only inside the flusher, the cache, nodeDB.Commit and the constructors, and no value data-derived from them is returned or stored outside those owners, so no read answer can be computed from them. NOT decided: equality of every read with the versioned-map model over histories (value-level), nor independence from fast-index setting / initial version / backend (those options are meant to select code paths)."})
+		explanation: "Decided statically: (0) shared clauses — Remove changes the working state only after the key was found (DOM); every field Set/Remove can write is reset on every path of Rollback (EFFECT frame rule); SaveNode always refreshes the node cache entry of a re-used node key (PASS); the merge of persisted and uncommitted keys and the overlay range filter are decided over the ordering domain lt/eq/gt × direction (ORDER); (1) DOM — in the write path (Set → set) the failing edge of the `value == nil` test leaves with a non-nil error and its passing edge dominates every effect on the working state (store of the working root, overlay update, recursive insert); (2) OWN/FLOW — the configuration values FlushThreshold, Sync, the flusher's threshold and the cache capacity are READ only inside the flusher, the cache, nodeDB.Commit and the constructors, and no value data-derived from them is returned or stored outside those owners, so no read answer can be computed from them. NOT decided: equality of every read with the versioned-map model over histories (value-level), nor independence from fast-index setting / initial version / backend (those options are meant to select code paths)."})
 }
 
 func checkC01(c *Ctx) {
@@ -95,6 +95,11 @@ func checkC01(c *Ctx) {
 		}
 		guarded(Set, "value", 0)
 	}
+
+	checkRemoveAbsent(c)
+	checkRollbackFrame(c)
+	checkCacheRefresh(c)
+	checkMergeOrder(c)
 
 	// ---- clause 2
 	type cfg struct {
@@ -251,4 +256,53 @@ func configEscapes(l *Loaded, v ssa.Value, self *types.Var) string {
 	}
 	walk(v)
 	return res
+}
+
+// checkRemoveAbsent: Remove changes the working state only after the key was found.
+func checkRemoveAbsent(c *Ctx) {
+	l := c.L
+	rootF := l.Field("", "ImmutableTree", "root")
+	addF := l.Field("", "MutableTree", "unsavedFastNodeAdditions")
+	remF := l.Field("", "MutableTree", "unsavedFastNodeRemovals")
+	// ---- clause 1b: Remove of an absent key leaves the working state untouched
+	c.rule("DOM-remove-absent", "Remove changes the working state only after the key was found", 2)
+	rem := l.Func("", "*MutableTree.Remove")
+	rrem := l.Func("", "*MutableTree.recursiveRemove")
+	if rem == nil || rrem == nil || rootF == nil {
+		c.anchorMissing("DOM-remove-absent", "MutableTree.Remove / recursiveRemove")
+	} else {
+		isRemoved := isResultOf(predStatic(rrem), 3)
+		gs := findGuards(rem, func(cond ssa.Value) (bool, int) {
+			v := stripTrivial(cond)
+			if isRemoved(v) {
+				return true, 0
+			}
+			if u, ok := v.(*ssa.UnOp); ok && u.Op == token.NOT && isRemoved(stripTrivial(u.X)) {
+				return true, 1
+			}
+			return false, 0
+		})
+		if len(gs) == 0 {
+			c.bad("DOM-remove-absent", "Remove tests `removed`", l.pos(rem.Pos()), "the result `removed` of the descent is not tested")
+		}
+		syncMapMut := predFuncString("(*sync.Map).Store", "(*sync.Map).Delete")
+		n := 0
+		allInstrs(rem, func(in ssa.Instruction) {
+			eff := isStoreToField(in, rootF, addF, remF)
+			if cc := callCommon(in); cc != nil {
+				if g := staticCallee(cc); g != nil && l.inModule(g) && g != rrem && len(callsIn(g, syncMapMut)) > 0 {
+					eff = true
+				}
+			}
+			if !eff {
+				return
+			}
+			n++
+			c.decide("DOM-remove-absent", "Remove effect "+describe(l, in), l.ipos(in), guardsEffect(gs, in), "only on the `removed` edge", "the working state is modified although the key may be absent: a Remove of a missing key replaces the (persisted) root by an unsaved copy and changes the next commit")
+		})
+		if n == 0 {
+			c.anchorMissing("DOM-remove-absent", "Remove has no effect on the working state")
+		}
+	}
+
 }
